@@ -14,3 +14,6 @@ def run(prog, rep):
     r_safe.run_rawbuf(prog, rep)
     from ..rules import r_key as _rk
     _rk.run_handles_only(prog, rep)
+    r_del.run_by_handle(prog, rep)
+    from ..rules import r_order as _ro2
+    _ro2.run_attr_search(prog, rep)
